@@ -311,6 +311,18 @@ theorem tcp_delay_and_patience (env : Env) (pruning : Int) (fdLimit : Nat) (hfd 
   refine ⟨?_, patience k⟩
   rw [(tcp_liveness env pruning fdLimit hfd _ ts hc).2, countP_replicate_silent]
 
+/-- what the statement asks of the TCP front end towards rpyc's own clients: a client with the default reply timeout that
+queues behind ONE silent connection still gets its answer in time -/
+def C18_tcp_patience_statement : Prop := 1 ≤ silentClientsTolerated
+
+/-- **Known finding** `C18:tcp-silent-client-outlasts-default-client-timeout`: it does not.  The registry spends
+`TCPRegistryServer.TIMEOUT` (3000 ms) on a connection that sends nothing, the clients give up after 2000 ms and
+`TCPRegistryClient.discover` then returns `()` - a silent wrong answer; one idle connection every 3 s starves every
+default client for as long as it goes on.  (`tcp_liveness` / `tcp_delay_and_patience` are the part that holds: nobody is
+refused, the cost is exactly TIMEOUT per silent connection.)  Replayed on real sockets by `known_probes` in c18.py. -/
+theorem C18_counterexample_silent_client_outlasts_default_client : ¬ C18_tcp_patience_statement := by
+  unfold C18_tcp_patience_statement silentClientsTolerated; decide
+
 theorem tcp_silent_step (env : Env) (pruning : Int) (fdLimit : Nat) (ts : TcpSt) (p : Nat) :
     (tcpStep env pruning fdLimit ts (.silent p)).1.sv = ts.sv
     ∧ (tcpStep env pruning fdLimit ts (.silent p)).2.step.notes = []
